@@ -25,7 +25,9 @@ def gen(tier, rng, harness=None):
     traces = C.run_lines([harness, "run"], ["wt.trace %d" % i for i in range(n)])
     lines = []
     for i, t in enumerate(traces):
-        if t in ("bad", "panic"):
+        # (a trace that is no trace — the print panicked, or the process DIED printing this module: `crash`, `hang`, `skipped-after-crashes` — still gets its
+        # oracle line: the verdict comes from the comparison, never from an exception of this generator)
+        if t in ("bad", "panic") or len(t.split()) != 2 or not t.split()[0].isdigit():
             lines.append("!wt.prop %d ok 0" % i)
             continue
         total, chunks = t.split()
